@@ -317,6 +317,22 @@ def fmt_form(fm):
     return ' '.join(parts) or '0'
 
 
+def check_array_fills(rep, mod):
+    R = rep.rule('L-ARRAY-FILL', 'every memset/memcpy of the library with a constant length whose destination is the first element of an array [N x T] has a length that is a multiple of sizeof(T), does not exceed '
+                 'N*sizeof(T), and is not the element COUNT N of an array of multi-byte elements (the table-clearing paths of the inflate table builders rely on clearing the whole lookup table)', floor=25, unit='fills')
+    for f, i, n, es, ln in irrules.array_fills(mod):
+        R.instance()
+        bad = None
+        if ln > n * es:
+            bad = 'writes %d bytes into an array of %d bytes' % (ln, n * es)
+        elif ln % es:
+            bad = 'length %d is not a multiple of the %d-byte element size' % (ln, es)
+        elif es > 1 and ln == n and ln < n * es:
+            bad = 'length %d is the element count of the array, not its size in bytes (%d): only the first %d of %d elements are written and the rest keeps stale contents' % (ln, n * es, ln // es, n)
+        R.check(bad is None, mod.where(f, i), '%s of [%d x %d-byte elements]: %s' % (base_name(i.callee).split('.')[1] if '.' in i.callee else i.callee, n, es, bad), key='L-ARRAY-FILL|%s|%d' % (f.name, i.line or 0),
+                sample='%s: %d bytes = %d x %d' % (f.name, ln, n, es) if f.name == 'make_inflate_huff_code_dist' else None)
+
+
 def check_asm(rep, V):
     R = rep.rule('R-GUARD-SINK-ASM', 'asm decoders: on every path from a read of the RFC distance table to a look-back read of the output buffer lies a conditional branch to the ISAL_INVALID_LOOKBACK exit', floor=2, unit='decoders')
     RV = rep.rule('R-GUARD-VALUE-ASM', 'asm decoders: the value each look-back guard compares with the saved start_out is, as a linear expression over the register contents before the guard, exactly the address of the first '
@@ -401,4 +417,5 @@ def main(tier):
     check_sinks_c(rep, mod, V)
     check_overflow_needs_buffer(rep, mod)
     check_asm(rep, V)
+    check_array_fills(rep, mod)
     return rep.finish()
